@@ -572,7 +572,7 @@ func (m *Machine) CrossStatsOrNew() *smt.Stats {
 
 // crossCheck re-decides an unsat assertion query on a second solver.
 func (m *Machine) crossCheck(neg *sym.Term, id string) {
-	s2, err := smt.Start(m.CrossKind, 600*time.Second, m.CrossStats)
+	s2, err := smt.Start(m.CrossKind, 60*time.Second, m.CrossStats)
 	if err != nil {
 		m.inconclusive = append(m.inconclusive, "cross solver: "+err.Error())
 		return
